@@ -629,7 +629,9 @@ class RegExFieldFormat(AbstractFieldFormat):
         super().__init__(field_name, is_allowed_to_be_empty, length, rule, data_format, empty_value="")
         try:
             self.regex = re.compile(rule, re.IGNORECASE | re.MULTILINE)
-        except re.error as error:
+        except (re.error, OverflowError, RecursionError, ValueError) as error:
+            # NOTE: Apart from re.error, a repetition number that is too large results in OverflowError, too many
+            # nested groups in RecursionError and incompatible inline flags in ValueError.
             raise errors.InterfaceError("rule must be a valid regular expression: %s" % error)
 
     def validated_value(self, value):
